@@ -1,1 +1,243 @@
-(* placeholder, being written *)
+(* ------------------------------------------------------------------------- *)
+(*  BS.Codec.ImageCodecProofs                                                *)
+(*                                                                           *)
+(*  C13: `bin_to_image (image_to_bin i) = Some i` for every image, over the  *)
+(*  model of ImageCodec.v, i.e. over the tables generated from               *)
+(*  image_serde.rs; and the format-name table generated from the real        *)
+(*  serializer is duplicate free.  Side conditions on generated tables are   *)
+(*  discharged by computation (re-checked against the source on every run):  *)
+(*  [dim_tables_inverse], [ilayout_wf], [ilayout_typed],                     *)
+(*  [image_decode_inverts_encode], [format_names_nodup].                     *)
+(* ------------------------------------------------------------------------- *)
+
+From Coq Require Import List NArith Bool Lia.
+From BS Require Import Codec.Schema Codec.SchemaProofs Codec.Lz4 Codec.Lz4Proofs
+  Codec.CodecTypes Codec.CodecLemmas Codec.ImageCodec.
+From BSGen Require Import ImageLayout FormatNames.
+Import ListNotations.
+Local Open Scope N_scope.
+
+Lemma ifield_eqb_eq a b : ifield_eqb a b = true <-> a = b.
+Proof.
+  apply (idx_eqb_eq ifield_idx). clear. intros a b; destruct a, b; cbn; intro H;
+    try reflexivity; discriminate H.
+Qed.
+
+(* ---------------------------------------------------------------------- *)
+(*  The environment of a decoded ImageData                                 *)
+(* ---------------------------------------------------------------------- *)
+
+Definition ienv_of (i : image) : ienv :=
+  combine (map fst imagedata_fields) (map (fun ft => ifield_val i (fst ft)) imagedata_fields).
+
+Lemma arg_env i s f :
+  assoc isource_eqb s image_dec_targets = Some f -> In f (map fst imagedata_fields) ->
+  arg_val (ienv_of i) s = Some (ifield_val i f).
+Proof.
+  intros T I. unfold arg_val. rewrite T.
+  apply (assoc_combine_map ifield_eqb ifield_eqb_eq). exact I.
+Qed.
+
+(* ---------------------------------------------------------------------- *)
+(*  Side conditions on the generated tables                                *)
+(* ---------------------------------------------------------------------- *)
+
+(* the decoder's dimension table inverts the encoder's on D1, D2, D3, and every number the
+   encoder writes fits the u8 field *)
+Lemma dim_tables_inverse : forall d, num_to_dim (dim_to_num d) = d /\ dim_to_num d < 256.
+Proof. destruct d; vm_compute; split; reflexivity. Qed.
+
+Lemma ilayout_wf : wf_ty ImageData_ty = true.
+Proof. vm_compute. reflexivity. Qed.
+
+Ltac in_fields := vm_compute; repeat (first [left; reflexivity | right]).
+Ltac table := vm_compute; reflexivity.
+Ltac eval_sources :=
+  repeat match goal with |- context [ifield_source ?f] =>
+    let s := eval vm_compute in (ifield_source f) in change (ifield_source f) with s
+  end; cbv iota beta.
+
+(* every argument of Image::new is taken from the field the same part of the image went into *)
+Lemma image_decode_inverts_encode i : image_of_env (ienv_of i) = Some i.
+Proof.
+  unfold image_of_env, arg_int.
+  erewrite (arg_env i ISrcWidth); [| table | in_fields].
+  erewrite (arg_env i ISrcHeight); [| table | in_fields].
+  erewrite (arg_env i ISrcDepth); [| table | in_fields].
+  erewrite (arg_env i ISrcDimension); [| table | in_fields].
+  erewrite (arg_env i ISrcFormat); [| table | in_fields].
+  erewrite (arg_env i ISrcData); [| table | in_fields].
+  unfold ifield_val. eval_sources.
+  unfold bytes_of_seq. rewrite tmap_eq, byte_seq_back.
+  rewrite (proj1 (dim_tables_inverse (dim i))). destruct i; reflexivity.
+Qed.
+
+Lemma image_of_data_of i : image_of_data (image_data_of i) = Some i.
+Proof. exact (image_decode_inverts_encode i). Qed.
+
+Lemma wt_u32 x : x < 2 ^ 32 -> wt (TInt 4) (VInt x) = true.
+Proof. intro H. cbn [wt]. unfold fits. apply N.ltb_lt. exact H. Qed.
+
+Lemma wt_dim d : wt (TInt 1) (VInt (dim_to_num d)) = true.
+Proof. cbn [wt]. unfold fits. apply N.ltb_lt. exact (proj2 (dim_tables_inverse d)). Qed.
+
+(* every field of ImageData has the wire type of the part of the image it is initialised from *)
+Lemma ilayout_typed i : wf_image i -> wt ImageData_ty (image_data_of i) = true.
+Proof.
+  intros (HW & HH & HD & HFL & HF & HDL & HDB). unfold ImageData_ty, image_data_of. cbn [wt].
+  apply wt_fields_map. unfold imagedata_fields.
+  repeat (apply Forall_cons || apply Forall_nil); cbn [fst snd]; unfold ifield_val; eval_sources;
+    first [ apply wt_u32; assumption
+          | apply wt_dim
+          | apply wt_bytes_lt; assumption
+          | apply wt_byte_seq; assumption ].
+Qed.
+
+(* ---------------------------------------------------------------------- *)
+(*  C13                                                                    *)
+(* ---------------------------------------------------------------------- *)
+
+(* every image, of any size and any format name: encoding succeeds, decoding returns it *)
+Theorem C13_image_lossless : forall i, wf_image i ->
+  exists bs, image_to_bin i = Some bs /\ bin_to_image bs = Ok (Some i).
+Proof.
+  intros i W.
+  destruct (enc_wt _ _ ilayout_wf (ilayout_typed i W)) as [b E].
+  exists (compress b). unfold image_to_bin, bin_to_image. rewrite E. split; [reflexivity|].
+  rewrite lz4_roundtrip.
+  pose proof (dec_enc _ _ _ [] ilayout_wf E) as D. rewrite app_nil_r in D. rewrite D.
+  rewrite image_of_data_of. reflexivity.
+Qed.
+
+Theorem image_to_bin_fast_eq : forall i, image_to_bin_fast i = image_to_bin i.
+Proof. intro i. unfold image_to_bin_fast, image_to_bin. rewrite enc_fast_eq. reflexivity. Qed.
+
+Theorem bin_to_image_fast_eq : forall bs, bin_to_image_fast bs = bin_to_image bs.
+Proof.
+  intro bs. unfold bin_to_image_fast, bin_to_image. destruct (decompress bs); [reflexivity|].
+  rewrite dec_fast_eq. reflexivity.
+Qed.
+
+(* ---------------------------------------------------------------------- *)
+(*  Format names (table generated from the real serializer)                *)
+(* ---------------------------------------------------------------------- *)
+
+Definition format_row := (list N * list N * bool * N)%type.
+Definition debug_name (r : format_row) : list N := fst (fst (fst r)).
+Definition wire_name (r : format_row) : list N := snd (fst (fst r)).
+Definition is_uncompressed (r : format_row) : bool := snd (fst r).
+
+Fixpoint nodupb (l : list (list N)) : bool :=
+  match l with
+  | [] => true
+  | x :: r => negb (existsb (bytes_eqb x) r) && nodupb r
+  end.
+
+Lemma bytes_eqb_eq a : forall b, bytes_eqb a b = true <-> a = b.
+Proof.
+  unfold bytes_eqb. induction a as [|x a IH]; destruct b as [|y b]; cbn [list_eqb];
+    try (split; [discriminate|discriminate]); [split; reflexivity|].
+  rewrite andb_true_iff, N.eqb_eq, IH. split; [intros [-> ->]; reflexivity|].
+  intro H; injection H as -> ->; split; reflexivity.
+Qed.
+
+Lemma nodupb_NoDup l : nodupb l = true -> NoDup l.
+Proof.
+  induction l as [|x l IH]; cbn [nodupb]; [constructor|].
+  rewrite andb_true_iff, negb_true_iff. intros [E R]. constructor; [|auto].
+  intro I. assert (X : existsb (bytes_eqb x) l = true).
+  { apply existsb_exists. exists x. split; [exact I|]. apply bytes_eqb_eq; reflexivity. }
+  rewrite X in E. discriminate.
+Qed.
+
+Lemma NoDup_map_injective {A B} (f : A -> B) l :
+  NoDup (map f l) -> forall x y, In x l -> In y l -> f x = f y -> x = y.
+Proof.
+  induction l as [|a l IH]; cbn [map In]; [tauto|]. intro N.
+  apply NoDup_cons_iff in N. destruct N as [NI N]. intros x y [<-|Hx] [<-|Hy] E; auto.
+  - exfalso. apply NI. rewrite E. apply in_map, Hy.
+  - exfalso. apply NI. rewrite <- E. apply in_map, Hx.
+Qed.
+
+Lemma format_names_nodup :
+  NoDup (map wire_name format_table) /\ NoDup (map debug_name format_table).
+Proof. split; apply nodupb_NoDup; vm_compute; reflexivity. Qed.
+
+(* Finite statement: over the [format_count] rows of the table produced by the real serializer
+   (one row per TextureFormat variant, Astc per block and channel), two formats with the same
+   name on the wire are the same format. *)
+Theorem format_names_injective : forall r1 r2,
+  In r1 format_table -> In r2 format_table -> wire_name r1 = wire_name r2 -> r1 = r2.
+Proof. exact (NoDup_map_injective wire_name format_table (proj1 format_names_nodup)). Qed.
+
+Lemma format_table_size :
+  N.of_nat (length format_table) = format_count
+  /\ N.of_nat (length (filter is_uncompressed format_table)) = uncompressed_count.
+Proof. vm_compute. split; reflexivity. Qed.
+
+(* every name of the table is a byte string: every real format gives well-formed images *)
+Lemma format_names_are_bytes :
+  Forall (fun r => N.of_nat (length (wire_name r)) < 2 ^ 64 /\ Forall (fun x => x < 256) (wire_name r))
+         format_table.
+Proof.
+  apply Forall_forall. intros r I.
+  assert (X : forallb (fun r => (N.of_nat (length (wire_name r)) <? 2 ^ 64)
+                                && forallb (fun x => x <? 256) (wire_name r)) format_table = true)
+    by (vm_compute; reflexivity).
+  rewrite forallb_forall in X. specialize (X r I). apply andb_true_iff in X. destruct X as [L B].
+  split; [apply N.ltb_lt; exact L|].
+  apply Forall_forall. intros x Hx. rewrite forallb_forall in B. apply N.ltb_lt, B, Hx.
+Qed.
+
+(* ---------------------------------------------------------------------- *)
+(*  Source ties (statements repeated in Properties/C13.v)                  *)
+(* ---------------------------------------------------------------------- *)
+
+Lemma source_dimension_tables_inverse :
+  forallb (fun p => dimension_eqb (num_to_dim (snd p)) (fst p)) dim_enc_table = true
+  /\ forallb (fun p => dim_to_num (snd p) =? fst p) dim_dec_table = true
+  /\ forallb (fun d => existsb (fun p => dimension_eqb (fst p) d) dim_enc_table) all_dimensions = true
+  /\ map fst dim_dec_table = [1; 2; 3] /\ dim_dec_default = D2.
+Proof. repeat split; reflexivity. Qed.
+
+(* the wire layout of ImageData *)
+Lemma source_image_layout :
+  imagedata_fields =
+  [(I_width, TInt 4); (I_height, TInt 4); (I_depth_or_array_layers, TInt 4); (I_dimensions, TInt 1);
+   (I_format, TBytes); (I_data, TSeq (TInt 1))].
+Proof. reflexivity. Qed.
+
+(* every argument of `Image::new` is taken from the field that was initialised from the same
+   part of the image, and all six parts are transported *)
+Lemma source_image_wiring :
+  Forall (fun p => ifield_source (snd p) = Some (fst p)) image_dec_targets
+  /\ forallb (fun s => existsb (fun p => isource_eqb (fst p) s) image_dec_targets) all_isources = true.
+Proof. split; [repeat constructor|reflexivity]. Qed.
+
+(* ---------------------------------------------------------------------- *)
+(*  Non-vacuity                                                            *)
+(* ---------------------------------------------------------------------- *)
+
+(* a 2x1x3 3-D image in the 23rd format of the table *)
+Definition ex_image : image :=
+  mkImage 2 1 3 D3 (wire_name (nth 22 format_table ([], [], false, 0)))
+          [0; 255; 1; 254; 7; 7; 7; 7; 7; 7; 7; 7; 7; 7; 7; 7; 7; 7; 7; 7; 7; 7; 7; 9].
+
+Example ex_image_wf : wf_image ex_image.
+Proof. unfold wf_image. cbn. repeat split; try reflexivity; repeat constructor. Qed.
+
+Example ex_image_roundtrip :
+  match image_to_bin ex_image with Some bs => bin_to_image bs | None => Stuck end
+  = Ok (Some ex_image).
+Proof. vm_compute. reflexivity. Qed.
+
+Example ex_image_empty :
+  match image_to_bin (mkImage 0 0 0 D1 [] []) with Some bs => bin_to_image bs | None => Stuck end
+  = Ok (Some (mkImage 0 0 0 D1 [] [])).
+Proof. vm_compute. reflexivity. Qed.
+
+Example ex_image_bincode_failure : bin_to_image (compress [1; 2; 3]) = Ok None.
+Proof. vm_compute. reflexivity. Qed.
+
+Example ex_image_decompress_panic : bin_to_image [0x10; 97; 2; 0] = Panic.
+Proof. vm_compute. reflexivity. Qed.
